@@ -41,7 +41,7 @@ theorem bin_count_and_last_empty_eq_model (rows : List Row) :
   · rintro b c hc
     have hc' : c = b := hc
     subst hc'
-    simp [OptRel]
+    simp [OptRel, Int.add_comm]
 
 /-- the generated function on a concrete packing: three items, the last bin (2) holds one of them -/
 example : bin_count_and_last_empty [[1, 1, 0, 0, 2, 2], [2, 2, 0, 0, 1, 1], [3, 1, 2, 0, 3, 3]] = some (3 * 1 + 1) := by
